@@ -99,3 +99,31 @@ Definition spec_bad (cs : list case_t) : list (N * N) :=
                        if ok then [] else [(ci, 100 * i + 10 * kind)])
              results)
     (index_from 0 cs).
+
+(* requests served by ONE reader in the given order, look-behind drop on (codec 1 gz, 2 bz2, 3 lz4) *)
+Definition model_seq (codec bs : N) (plain : list N) (sched : list N) (reqs : list N) : list (ares (list N)) :=
+  let n := lenN plain in
+  match codec with
+  | 1 => read_blocks_m sched_state (fill_block sched_state sched_read (Some GZ_BUF_SZ)) true bs n
+           (mk_rstate 0 (plain, sched) []) reqs
+  | 2 => read_blocks_m sched_state (fill_block sched_state sched_read None) true bs n
+           (mk_rstate 0 (plain, sched) []) reqs
+  | 3 => read_blocks_m iblk_state (fill_once iblk_state iblk_read) true bs n
+           (mk_rstate 0 (split_sizes plain sched) []) reqs
+  | _ => []
+  end.
+
+Fixpoint seq_agrees (ms : list (ares (list N))) (rs : list (N * N * list string)) : bool :=
+  match ms, rs with
+  | [], [] => true
+  | m :: ms', (_, kind, h) :: rs' => agrees m kind h && seq_agrees ms' rs'
+  | _, _ => false
+  end.
+
+Definition seq_bad (cs : list case_t) : list (N * N) :=
+  flat_map (fun ic =>
+    let '(ci, (codec, bs, ph, sched, aux, results)) := ic in
+    let plain := hexcat ph in
+    if seq_agrees (model_seq codec bs plain sched (map (fun r => fst (fst r)) results)) results
+    then [] else [(ci, 1)])
+    (index_from 0 cs).
